@@ -28,11 +28,21 @@ CLAIMED = {
             "Generated names, related pairs/triples, pools, wire contexts and constructor programs are checked against an independent canonical-order / case-folded-equality model, a wire round trip at arbitrary offsets with and without compression, a text round trip for host-style names, and the 255/63 limits after every constructor step. Sampling, not proof: it reports how many distinct non-trivial cases stood behind the verdict.",
             "Trusts the harness's reference model (refm/canon.rs, ~60 lines from RFC 4034 §6.1) and proptest's generators; text clause limited to the alphabet the statement names.",
             "DESIGN.md §7 C04"),
+    "C16": ("exploration",
+            "schedule enumeration + property-based testing (proptest) on a simulated runtime: every arrival order of ≤4 forged/genuine datagrams enumerated, longer schedules and multiplexer op histories sampled; oracle = validity predicate on which datagram may complete a query + ID-routing model",
+            "The real UdpClientStream runs on the harness's discrete-event runtime; every datagram is built from the bytes hickory actually sent. All sequences of ≤4 datagrams over 9 forged/genuine kinds × 0x20 on/off are enumerated; longer schedules (≤3 transmissions, ≤10 datagrams each) are sampled. Ok ⇒ byte-identical to a delivered datagram from the queried addr:port with the wire ID and asked questions (case-exact under 0x20), among the first three read on its socket; otherwise error/timeout. The real DnsMultiplexer is polled by hand over a scripted stream: in-flight IDs pairwise distinct, responses routed by ID only, unknown IDs dropped, close/error fails every pending request, timeouts reported.",
+            "The harness owns the schedule (delivery orders, not thread interleavings). Malformed datagrams from the right source may be skipped or end the query in an error (statement is silent).",
+            "DESIGN.md §7 C16"),
     "C17": ("exploration",
             "property-based testing (proptest) + exhaustive small-scope enumeration of chunk compositions against a framing reference model",
             "The real TcpStream is polled by hand over a scripted socket: generated read chunkings with would-block steps, close positions and write-acceptance scripts; for every short stream (framed length ≤10 quick / ≤13 thorough) ALL compositions into read chunks × ALL close positions and ALL compositions into write acceptances are enumerated. Oracle: yielded items = the complete messages before the close, then clean end / error / idle; octets accepted by the socket = len_be16‖body concatenation.",
             "Trusts the scripted socket model (wakes immediately after would-block; silent peer = Pending without wake). Zero-length frames and Ok(0) writes are outside the stated domain.",
             "DESIGN.md §7 C17"),
+    "C18": ("exploration",
+            "property-based testing (proptest) over fault assignments on a simulated network in virtual time; oracle = validity of the returned answer, liveness where ordering cannot matter, exact virtual-time deadline, exchange-count comparison for de-duplication",
+            "The real NameServerPool::from_config runs on the discrete-event runtime against 1..4 scripted servers (answer, trusted/untrusted NXDOMAIN, TC-on-UDP with full/refused/reset/hanging TCP, silent, io errors, resets, Busy×n) × ordering strategy × num_concurrent_reqs × protocols × 1..5 callers. Ok ⇒ an answer some server's behaviour can produce, never a truncated UDP body; fast-failing faults + ≥1 healthy server ⇒ Ok; completion time ≤ timeout in virtual time; k identical concurrent callers cause the same exchanges as one and get equal results; a later lookup causes a new exchange.",
+            "Liveness is asserted only where the pool's server ordering cannot matter. Two known findings (deadline overrun by the attempt in flight; 'receiver was canceled' treated as fatal) are excluded by signature and reported as KNOWN-FINDING; a larger overrun stays a VIOLATION.",
+            "DESIGN.md §7 C18"),
 }
 
 NOT_YET = {}
